@@ -65,3 +65,106 @@ def scan_pop(ctx, fi, rule='exactly-once'):
                                                                 '; here a path both removes and advances: the element after every removed one is never examined'),
                construct='scan ' + U(w.test))
     return n
+
+
+def default_resolved_first(ctx, fi, rule='loss-form'):
+    """A parameter p that defaults to None ("use the configured value") is resolved by `if p is None: p = E` / `p = E if p is None else p`.
+    Every other read of p must come after that statement: a test made on the unresolved value (`callable(p)`, `p == 'L1'`) sees None on
+    the default path and takes the branch for "none of these" although the configured value would have taken another.
+    Works on the function as written (top-level statement order).  One obligation per resolved parameter."""
+    raw = getattr(fi, 'original', fi)
+    n = 0
+    for p, d in raw.defaults().items():
+        if not (isinstance(d, ast.Constant) and d.value is None):
+            continue
+        res = None
+        for i, st in enumerate(raw.node.body):
+            if isinstance(st, ast.If) and isinstance(st.test, ast.Compare) and len(st.test.ops) == 1 and isinstance(st.test.ops[0], ast.Is) \
+                    and U(st.test.left) == p and U(st.test.comparators[0]) == 'None' \
+                    and any(isinstance(b, ast.Assign) and any(U(t) == p for t in b.targets) for b in st.body):
+                res = (i, st)
+                break
+            if isinstance(st, ast.Assign) and any(U(t) == p for t in st.targets) and isinstance(st.value, ast.IfExp) \
+                    and U(st.value.test).replace(' ', '') in ('%sisNone' % p, '%sisnotNone' % p):
+                res = (i, st)
+                break
+            if isinstance(st, ast.Assign) and any(U(t) == p for t in st.targets) and isinstance(st.value, ast.BoolOp) and isinstance(st.value.op, ast.Or) \
+                    and U(st.value.values[0]) == p:
+                res = (i, st)
+                break
+        if res is None:
+            continue
+        early = [x for st in raw.node.body[:res[0]] for x in ast.walk(st) if isinstance(x, ast.Name) and x.id == p and isinstance(x.ctx, ast.Load)]
+        n += 1
+        first = early[0] if early else None
+        stmt = None
+        if first is not None:
+            stmt = next(st for st in raw.node.body[:res[0]] if any(x is first for x in ast.walk(st)))
+        ctx.ob(rule, fi, stmt if stmt is not None else res[1], not early,
+               'parameter `%s` defaults to None and is resolved by `%s`; %s' % (p, U(res[1]).split('\n')[0][:60],
+               'nothing reads it before that' if not early else
+               '`%s` reads it BEFORE the resolution: on the default path it sees None, not the configured value' % U(stmt).split('\n')[0][:70]),
+               construct='resolution of the default of `%s` in %s' % (p, raw.qualname))
+    return n
+
+
+def aligned_zips(ctx, fi, rule):
+    """zip(A, B) pairs the i-th element of A with the i-th of B.  When A was obtained by FILTERING a list that was aligned with B (a
+    comprehension with an `if`, over B or over a list built element by element from B) and B was not filtered the same way, the positions
+    no longer correspond: every element after the first one dropped is paired with an earlier row.
+    Index spaces: a parameter / any other sequence is its own base; `[f(x) for x in S]` keeps the space of S; an `if` adds a filter;
+    zip(A, B) with one base and different filters is reported.  Different bases: nothing is claimed."""
+    raw = getattr(fi, 'original', fi)
+    defs = {}
+    for st in ast.walk(raw.node):
+        if isinstance(st, ast.Assign) and len(st.targets) == 1 and isinstance(st.targets[0], ast.Name):
+            defs.setdefault(st.targets[0].id, []).append(st.value)
+
+    def space(e, depth=0):
+        """-> (base text, tuple of filter texts) or None"""
+        if depth > 8:
+            return None
+        while isinstance(e, ast.Call) and isinstance(e.func, ast.Name) and e.func.id in ('list', 'tuple', 'enumerate') and len(e.args) == 1:
+            e = e.args[0]
+        if isinstance(e, ast.Call) and U(e.func) in ('np.array', 'np.asarray', 'numpy.array') and len(e.args) == 1:
+            e = e.args[0]
+        if isinstance(e, ast.Name):
+            ds = defs.get(e.id, [])
+            if len(ds) == 1:
+                return space(ds[0], depth + 1)
+            if not ds:
+                return (e.id, ())
+            return None
+        if isinstance(e, (ast.ListComp, ast.GeneratorExp)) and len(e.generators) == 1:
+            g = e.generators[0]
+            s = space(g.iter, depth + 1)
+            if s is None:
+                return None
+            return (s[0], s[1] + tuple(U(c) for c in g.ifs))
+        if isinstance(e, ast.Call) and isinstance(e.func, ast.Name) and e.func.id == 'zip' and e.args:
+            ss = [space(a, depth + 1) for a in e.args]
+            if any(s is None for s in ss):
+                return None
+            bases = {s[0] for s in ss}
+            if len(bases) == 1:
+                return max(ss, key=lambda s: len(s[1]))
+            return None
+        if isinstance(e, ast.Call) and isinstance(e.func, ast.Name) and e.func.id == 'filter' and len(e.args) == 2:
+            s = space(e.args[1], depth + 1)
+            return None if s is None else (s[0], s[1] + (U(e.args[0]),))
+        if isinstance(e, (ast.Attribute, ast.Subscript)):
+            return (U(e), ())
+        return None
+    n = 0
+    for z in [c for c in ast.walk(raw.node) if isinstance(c, ast.Call) and isinstance(c.func, ast.Name) and c.func.id == 'zip' and len(c.args) >= 2]:
+        ss = [space(a) for a in z.args]
+        if any(s is None for s in ss) or len({s[0] for s in ss}) != 1:
+            continue
+        n += 1
+        same = len({s[1] for s in ss}) == 1
+        ctx.ob(rule, fi, z, same,
+               '`%s` pairs sequences by position; both derive from `%s`%s' % (U(z)[:70], ss[0][0], ' with the same elements kept' if same else
+               ', but %s: after the first dropped element every later one is paired with an earlier row'
+               % '; '.join('`%s` keeps only the elements with %s' % (U(a)[:30], ' and '.join(s[1])) if s[1] else '`%s` keeps all' % U(a)[:30]
+                           for a, s in zip(z.args, ss))), construct='alignment of ' + U(z)[:50])
+    return n
